@@ -161,6 +161,7 @@ def apply_geometric_augmentation(
                 translate=(translate_width, translate_height),
                 scale=scale,
                 p=affine_p,
+                align_corners=True,
                 keepdim=True,
                 same_on_batch=True,
             )
